@@ -126,6 +126,29 @@ CLAIMED = {
         "Interpretations I-C18 (leading zeros) and I-C18b (no keys -> []), see Props/C18.v.",
         "DESIGN.md section 5 C18",
     ),
+    "C12": (
+        "Coq proof of schedule independence for a task language with gather, yields and task-local context (invariant: every step preserves the denotation) + correspondence and all-yield-vectors oracle on ahbicht",
+        "Props/C12.v (19 theorems): every complete schedule of an arbitrary program yields the no-yield denotation; progress, termination (every step decreases a measure), position-preserving pairing at every gather+zip "
+        "site (incl. duplicate keys), isolation of context-local data between gathered tasks, soundness of the executable scheduler. The implementation is run under all yield-count vectors in {0..2}^n (quick) / {0..3}^n (thorough).",
+        "Partial by nature: the real event loop is modelled as 'any runnable task may step' (a superset of real schedules); contextvars copy-on-task-creation and asyncio.gather are modelled, not verified; user evaluators are assumed "
+        "deterministic functions of (key, task-local context); with several raising awaitables only the exception class is compared.",
+        "DESIGN.md section 5 C12",
+    ),
+    "C15": (
+        "Coq corollary of schedule independence + context isolation for the validate_segment skeleton (nested trees) + refutation witness for the 'set in parent' variant + correspondence/oracle with yielding evaluators",
+        "Props/C15.v: for every schedule the result at each free-text element equals validating that element alone with its own text (also inside nested groups with arbitrary sibling tasks); the variant that sets the "
+        "ContextVar in the parent before gathering is refuted by a computed witness. Implementation: 2-5 elements with different inputs, FC evaluators yield before reading the ContextVar, all yield vectors.",
+        "Partial: as C12.",
+        "DESIGN.md section 5 C15",
+    ),
+    "C20": (
+        "Coq proof over a byte-level model of datetime.fromisoformat / astimezone / pytz lookup with the Berlin transition table regenerated from pytz; finite checks lifted by interval lemmas; correspondence + integer EU-rule oracle",
+        "Props/C20.v (10 theorems): the generated table equals the EU rule on [1996, 2038) (42 years checked by vm_compute + interval lemma, bound in the statement); civil-date round trip on the stated range; for every in-range instant, "
+        "every offset |o| < 24h and every listed shape 932/933 are fulfilled iff local time is 00:00:00, 934/935 iff 06:00:00, 931 iff offset zero (instant and offset symbolic); any aware datetime is judged by its instant only; "
+        "every string that does not parse is unfulfilled with a message; no string makes the five evaluators raise (incl. year-1/9999 overflow).",
+        "Trusted: Coq kernel; gen_tz translator (fails closed on unexpected pytz shapes); hand model of CPython's fromisoformat (fuzzed 2.3M strings during construction, tied every run by correspondence), astimezone range checks and pytz's fromutc (modelled, not verified).",
+        "DESIGN.md section 5 C20",
+    ),
 }
 
 PENDING_REASON = "not yet built in this round: the Coq model/theorems for this property are under construction (see DESIGN.md section 11); no check is claimed until it exists"
